@@ -75,7 +75,6 @@ func VerifFailSwitch(s interface{}) *int32 {
 	return flag
 }
 
-
 // ---- tracing: every command of every connection of this store is announced before it is sent (Do only: a round
 // trip) and reported after its reply, together with the commands that were pipelined (Send) since the last round trip
 
